@@ -240,5 +240,32 @@ C27_Pool ==
 C27_Step == C27_Amount /\ C27_Pool
 
 \* ======================================================================== all step clauses of the ledger family
+\* ======================================================================== C09 / C10 / C29 (twin scenarios)
+\* Scenarios of the durability family run an ideal node (never stopped, never crashed) in lockstep; every record
+\* carries what an outside observer sees of both: response, app hash, Info, digests of the current-state queries and of
+\* the export of the committed state, emission, versions, validators, price record.
+ObsKinds == {"Init", "BeginBlock", "DeliverTx", "EndBlock", "Commit", "Restart", "Recovered", "Restored"}
+HasObs == /\ "obs" \in DOMAIN ev' /\ "ideal" \in DOMAIN ev'
+          /\ ev'.kind \in ObsKinds /\ NoPanic /\ ev'.ideal.panic = ""
+ObsDiff == {f \in DOMAIN ev'.obs : ev'.obs[f] # ev'.ideal[f]}
+ObsDescr == [at |-> Where, fields |-> [f \in ObsDiff |-> <<ev'.obs[f], ev'.ideal[f]>>], fault |-> hist.lastFault,
+             restarts |-> hist.restarts, firstField |-> (IF ObsDiff = {} THEN "" ELSE CHOOSE f \in ObsDiff : TRUE)]
+C09_Same ==
+   Clause("C09", "SameAsNeverStopped", HasObs /\ (hist.restarts > 0 \/ IsKind("Restart")) /\ ~hist.crashed /\ ~hist.synced,
+          ObsDiff = {}, ObsDescr)
+C09_Boots ==
+   Clause("C09", "RestartSucceeds", ev'.kind \in {"Restart", "Recover"}, ev'.panic = "",
+          [at |-> Where, panic |-> ev'.panic, fault |-> hist.lastFault])
+C09_Step == C09_Same /\ C09_Boots
+C10_Height ==
+   Clause("C10", "ReplayableHeight", ev'.kind \in {"Recover", "Unrecoverable"} /\ NoPanic,
+          ev'.kind = "Recover" /\ ev'.resp.gas \in {ev'.h, ev'.h + 1},      \* the crashed block is h+1 at the time of the restart
+          [at |-> Where, reported |-> ev'.resp.gas, fault |-> hist.lastFault])
+C10_Recovered ==
+   Clause("C10", "RecoveredEqualsUncrashed", HasObs /\ hist.crashed, ObsDiff = {}, ObsDescr)
+C10_Step == C10_Height /\ C10_Recovered
+
+LeanProps == C07_Step /\ C09_Step /\ C10_Step
 StepProps == C01_Step /\ C02_Step /\ C03_Step /\ C04_Step /\ C05_Step /\ C06_Step /\ C07_Step /\ C26_Step /\ C27_Step
+             /\ C09_Step /\ C10_Step
 =============================================================================
